@@ -127,7 +127,9 @@ def r11(rep, prog):
             tb = trace_back(cb, l) if l is not None else []
             provs.append(tb)
         is_ops = lambda tb: any(x[0] == "field" and x[2] == "opstamp" for x in tb)
-        is_tgt = lambda tb: bool(tb) and tb[-1] == ("param", 5)
+        # the target is a parameter named target_opstamp, wherever it stands, or that field of a parameter that bundles them
+        pnames = cb.var_names()
+        is_tgt = lambda tb: bool(tb) and tb[-1][0] == "param" and (pnames.get(tb[-1][1]) == "target_opstamp" or any(x[0] == "field" and x[2] == "target_opstamp" for x in tb))
         if not ((is_ops(provs[0]) and is_tgt(provs[1])) or (is_ops(provs[1]) and is_tgt(provs[0]))):
             continue
         cond_at_eq = tr[-1][1] in ("Ge", "Le", "Eq")
